@@ -952,3 +952,253 @@ Proof.
         eapply (absent_no_desc _ _ Hwf Htg r); eauto. }
     rewrite E2. exact Hpar.
 Qed.
+
+(* ---- every operation keeps the tree well-formed *)
+Lemma srv_openfile_wf s k cr ex tr s' id : wf (s_tree s) -> srv_openfile s k cr ex tr = SOk (s', id) -> wf (s_tree s').
+Proof.
+  intros Hwf. unfold srv_openfile. destruct (lfetch (s_tree s) k) as [n|].
+  - destruct (cr && ex); [discriminate|]. destruct n; [discriminate|].
+    intros H; inversion H; subst. destruct tr; exact Hwf.
+  - destruct cr; [|discriminate]. destruct (putfile _ _ _) as [t'|e] eqn:E; [|discriminate].
+    intros H; inversion H; subst. cbn. eapply putfile_wf; eauto.
+Qed.
+
+Lemma c_open_wf s name flag cl s' f : wf (s_tree s) -> c_open s name flag cl = SOk (s', f) -> wf (s_tree s').
+Proof.
+  intros Hwf. unfold c_open. cbv zeta. intros H.
+  assert (Hm : exists id, srv_openfile s (skey name) (has_flag flag o_create) (has_flag flag o_excl) (has_flag flag o_trunc) = SOk (s', id)).
+  { repeat match type of H with context [if ?b then _ else _] => destruct b end; try discriminate;
+      destruct (srv_openfile s (skey name) _ _ _) as [[s1 id]|e]; try discriminate;
+      inversion H; subst; eauto. }
+  destruct Hm as [id Hm]. eapply srv_openfile_wf; eauto.
+Qed.
+
+Lemma srv_setstat_tree s k sz s' : srv_setstat s k sz = SOk s' -> s_tree s' = s_tree s.
+Proof.
+  unfold srv_setstat, srv_openfile. destruct (lfetch (s_tree s) k) as [[|i]|]; cbn; try discriminate.
+  destruct sz as [n|]; [destruct (n <? 0); [discriminate|]|]; intros H; inversion H; reflexivity.
+Qed.
+
+Lemma srv_mkdir_wf s k s' : wf (s_tree s) -> srv_mkdir s k = SOk s' -> wf (s_tree s').
+Proof.
+  intros Hwf. unfold srv_mkdir. destruct (putfile _ _ _) as [t'|e] eqn:E; [|discriminate].
+  intros H; inversion H; subst. cbn. eapply putfile_wf; eauto.
+Qed.
+
+Lemma fs_mkdir_wf s p : wf (s_tree s) -> wf (s_tree (fst (fs_mkdir s p))).
+Proof.
+  intros Hwf. unfold fs_mkdir. destruct (srv_mkdir s (skey p)) as [s1|e] eqn:E; [|exact Hwf].
+  cbn. eapply srv_mkdir_wf; eauto.
+Qed.
+
+Lemma mk_finish_wf s p : wf (s_tree s) -> wf (s_tree (fst (mk_finish s p))).
+Proof.
+  intros Hwf. unfold mk_finish. pose proof (fs_mkdir_wf s p Hwf) as H.
+  destruct (fs_mkdir s p) as [s2 r]; cbn in H.
+  destruct r; cbn; try exact H.
+  destruct (srv_stat s2 (skey p)) as [[[|] ?]|]; exact H.
+Qed.
+
+Lemma fs_mkdirall_wf fixed fuel : forall s p, wf (s_tree s) -> wf (s_tree (fst (fs_mkdirall fixed fuel s p))).
+Proof.
+  induction fuel as [|fu IH]; intros s p Hwf; rewrite fs_mkdirall_eq;
+    destruct (srv_stat s (skey p)) as [[[|] ?]|]; try exact Hwf;
+    destruct (parent_of p) as [par|]; try (apply mk_finish_wf; exact Hwf); try exact Hwf.
+  specialize (IH s par Hwf). destruct (fs_mkdirall fixed fu s par) as [s1 r]; cbn in IH.
+  destruct r; try exact IH. apply mk_finish_wf. exact IH.
+Qed.
+
+Lemma fs_remove_wf s p : wf (s_tree s) -> wf (s_tree (fst (fs_remove s p))).
+Proof.
+  intros Hwf. unfold fs_remove. destruct (lfetch (s_tree s) (skey p)) as [[|i]|] eqn:El; try exact Hwf.
+  - unfold srv_rmdir. rewrite El. destruct (has_child (s_tree s) (skey p)) eqn:Ec; [exact Hwf|].
+    cbn. apply kdel_wf; [exact Hwf | now apply has_child_false].
+  - cbn. eapply kdel_wf_file; eauto.
+Qed.
+
+Lemma fs_rename_wf s a b : wf (s_tree s) -> wf (s_tree (fst (fs_rename s a b))).
+Proof.
+  intros Hwf. unfold fs_rename. destruct (srv_rename s (skey a) (skey b)) as [s'|e] eqn:E; [|exact Hwf].
+  apply srv_rename_ok in E; [|exact Hwf]. destruct E as [Hpre ->]. cbn. now apply rename_wf.
+Qed.
+
+Lemma step_wf st it : wf (s_tree (st_srv st)) -> wf (s_tree (st_srv (fst (sftp_step st it)))).
+Proof.
+  destruct it as [slot o]. destruct st as [s slots]. cbn [st_srv]. intros Hwf.
+  destruct o; unfold sftp_step; cbn [fst snd st_srv st_slots].
+  - destruct (c_open s p create_flags true) as [[s' f]|e] eqn:E; cbn; [|exact Hwf]. eapply c_open_wf; eauto.
+  - pose proof (fs_mkdir_wf s p Hwf) as H. destruct (fs_mkdir s p); exact H.
+  - pose proof (fs_mkdirall_wf false (S (length p)) s p Hwf) as H. destruct (fs_mkdirall _ _ s p); exact H.
+  - destruct (c_open s p o_rdonly true) as [[s' f]|e] eqn:E; cbn; [|exact Hwf]. eapply c_open_wf; eauto.
+  - destruct (c_open s p flag false) as [[s' f]|e] eqn:E; cbn; [|exact Hwf].
+    pose proof (c_open_wf _ _ _ _ _ _ Hwf E) as H1.
+    destruct (srv_setstat s' (sf_key f) None) as [s''|e] eqn:E2; cbn; [|exact H1].
+    now rewrite (srv_setstat_tree _ _ _ _ E2).
+  - pose proof (fs_remove_wf s p Hwf) as H. destruct (fs_remove s p); exact H.
+  - exact Hwf.
+  - pose proof (fs_rename_wf s p q Hwf) as H. destruct (fs_rename s p q); exact H.
+  - exact Hwf. - exact Hwf. - exact Hwf. - exact Hwf.
+  - destruct (sf_slot_get slots h) as [f|]; [|exact Hwf]. destruct (c_readat _ f n (sf_off f)); exact Hwf.
+  - destruct (sf_slot_get slots h) as [f|]; [|exact Hwf]. destruct (c_readat _ f n off); exact Hwf.
+  - destruct (sf_slot_get slots h) as [f|]; [|exact Hwf].
+    destruct (c_writeat _ f b (sf_off f)) as [[[c'|] n] e]; exact Hwf.
+  - destruct (sf_slot_get slots h) as [f|]; exact Hwf.
+  - destruct (sf_slot_get slots h) as [f|]; [|exact Hwf].
+    destruct (c_writeat _ f b (sf_off f)) as [[[c'|] n] e]; exact Hwf.
+  - destruct (sf_slot_get slots h) as [f|]; [|exact Hwf]. destruct (sf_closed f); [exact Hwf|].
+    match goal with |- context [match ?tt with SOk _ => _ | SErr _ => _ end] => destruct tt as [tg|e] end; [|exact Hwf].
+    destruct (tg <? 0); exact Hwf.
+  - destruct (sf_slot_get slots h) as [f|]; [|exact Hwf]. destruct (sf_closed f); [exact Hwf|].
+    destruct (srv_setstat s (sf_key f) (Some n)) as [s'|e] eqn:E; [|exact Hwf].
+    cbn. now rewrite (srv_setstat_tree _ _ _ _ E).
+  - destruct (sf_slot_get slots h) as [f|]; [|exact Hwf]. destruct (sf_closed f); exact Hwf.
+  - destruct (sf_slot_get slots h) as [f|]; [|exact Hwf]. destruct (sf_client f); [|exact Hwf].
+    destruct (sff_readdir s f n); exact Hwf.
+  - destruct (sf_slot_get slots h) as [f|]; [|exact Hwf]. destruct (sf_client f); [|exact Hwf].
+    destruct (sff_readdir s f n); exact Hwf.
+  - destruct (sf_slot_get slots h) as [f|]; [|exact Hwf]. destruct (sf_closed f); [exact Hwf|].
+    destruct (srv_stat s (sf_key f)) as [[? ?]|]; exact Hwf.
+  - destruct (sf_slot_get slots h) as [f|]; exact Hwf.
+  - destruct (sf_slot_get slots h) as [f|]; exact Hwf.
+Qed.
+
+Theorem reachable_wf : forall items st, wf (s_tree (st_srv st)) -> wf (s_tree (st_srv (fst (sftp_run st items)))).
+Proof.
+  induction items as [|it items IH]; intros st Hwf; [exact Hwf|].
+  cbn [sftp_run]. pose proof (step_wf st it Hwf) as H1.
+  destruct (sftp_step st it) as [st1 x]. cbn [fst] in H1.
+  specialize (IH st1 H1). destruct (sftp_run st1 items) as [st2 xs]. exact IH.
+Qed.
+
+(* ================================================================ H. directory creation *)
+Definition is_dir (s : server) (k : pkey) : Prop := lfetch (s_tree s) k = Some NDir.
+
+(* in a well-formed tree every ancestor of a directory is a directory *)
+Lemma wf_ancestors s k : wf (s_tree s) -> is_dir s k -> forall a rest, k = a ++ rest -> is_dir s a.
+Proof.
+  intros Hwf Hk a rest. revert k Hk. induction rest as [|x rest IH] using rev_ind; intros k Hk Heq.
+  - rewrite app_nil_r in Heq. now subst.
+  - subst k. rewrite app_assoc in Hk.
+    assert (Hne : (a ++ rest) ++ [x] <> []) by (destruct (a ++ rest); discriminate).
+    unfold is_dir in Hk. rewrite lfetch_nonroot in Hk by exact Hne. apply kget_In in Hk.
+    destruct (Hwf _ _ Hk) as [_ Hp]. rewrite removelast_last in Hp.
+    eapply IH; [exact Hp | reflexivity].
+Qed.
+
+Lemma srv_stat_dir s k z : srv_stat s k = Some (true, z) -> is_dir s k.
+Proof.
+  unfold srv_stat, is_dir. destruct (lfetch (s_tree s) k) as [[|i]|]; try discriminate. reflexivity.
+Qed.
+
+Lemma srv_stat_file s k z : srv_stat s k = Some (false, z) -> exists i, lfetch (s_tree s) k = Some (NFile i).
+Proof.
+  unfold srv_stat. destruct (lfetch (s_tree s) k) as [[|i]|]; try discriminate. eauto.
+Qed.
+
+Lemma srv_setstat_dir_unchanged s s' k sz q : srv_setstat s k sz = SOk s' -> is_dir s q -> is_dir s' q.
+Proof. intros H. unfold is_dir. now rewrite (srv_setstat_tree _ _ _ _ H). Qed.
+
+Lemma mk_finish_ok s p s' : mk_finish s p = (s', ROk) -> is_dir s' (skey p).
+Proof.
+  unfold mk_finish, fs_mkdir.
+  destruct (srv_mkdir s (skey p)) as [s1|e] eqn:E.
+  - (* MKDIR succeeded; whatever the Chmod says, the directory is there *)
+    assert (Hd : is_dir s1 (skey p)).
+    { unfold srv_mkdir, putfile in E. destruct (canon_err _ _); [discriminate|].
+      destruct (lfetch (s_tree s) (skey p)) eqn:El; [discriminate|]. inversion E; subst. unfold is_dir; cbn.
+      rewrite lfetch_kset by (eapply lfetch_none_nonroot; eauto). now rewrite keqb_refl. }
+    destruct (fs_setattr s1 p) eqn:Ea;
+      try (destruct (srv_stat s1 (skey p)) as [[[|] ?]|]);
+      intros H; inversion H; subst; exact Hd.
+  - destruct (srv_stat s (skey p)) as [[[|] z]|] eqn:Es; intros H; inversion H; subst.
+    eapply srv_stat_dir; eauto.
+Qed.
+
+(* MkdirAll, the code as it is: success means the path is a directory — unless it was a regular
+   file to begin with (the fast path returns Stat's nil error) *)
+Lemma fs_mkdirall_ok fixed fuel s p s' :
+  fs_mkdirall fixed fuel s p = (s', ROk) ->
+  is_dir s' (skey p) \/ (fixed = false /\ s' = s /\ exists i, lfetch (s_tree s) (skey p) = Some (NFile i)).
+Proof.
+  rewrite fs_mkdirall_eq.
+  destruct (srv_stat s (skey p)) as [[[|] z]|] eqn:Es.
+  - intros H; inversion H; subst. left. eapply srv_stat_dir; eauto.
+  - destruct fixed; [discriminate|]. intros H; inversion H; subst. right.
+    split; [reflexivity|]. split; [reflexivity|]. eapply srv_stat_file; eauto.
+  - destruct (parent_of p) as [par|].
+    + destruct fuel as [|fu]; [discriminate|].
+      destruct (fs_mkdirall fixed fu s par) as [s1 r]. destruct r; try discriminate.
+      intros H. left. eapply mk_finish_ok; eauto.
+    + intros H. left. eapply mk_finish_ok; eauto.
+Qed.
+
+Theorem mkdirall_creates_ancestors fixed fuel s p s' :
+  wf (s_tree s) ->
+  (fixed = true \/ forall i, lfetch (s_tree s) (skey p) <> Some (NFile i)) ->
+  fs_mkdirall fixed fuel s p = (s', ROk) ->
+  forall a rest, skey p = a ++ rest -> is_dir s' a.
+Proof.
+  intros Hwf Hnf H a rest Heq.
+  assert (Hwf' : wf (s_tree s')).
+  { pose proof (fs_mkdirall_wf fixed fuel s p Hwf) as Hw. now rewrite H in Hw. }
+  apply fs_mkdirall_ok in H. destruct H as [Hd | (Hfx & -> & [i Hi])].
+  - eapply wf_ancestors; eauto.
+  - destruct Hnf as [Hnf|Hnf]; [congruence | exfalso; eapply Hnf; eauto].
+Qed.
+
+(* the defect: MkdirAll on an existing regular file reports success and creates nothing *)
+Theorem mkdirall_on_file_reports_ok fuel s p i :
+  lfetch (s_tree s) (skey p) = Some (NFile i) -> fs_mkdirall false fuel s p = (s, ROk).
+Proof.
+  intros H. rewrite fs_mkdirall_eq. unfold srv_stat. rewrite H. reflexivity.
+Qed.
+
+(* a failed MkdirAll may have created some of the ancestors but never touches file contents;
+   a successful one on a new path went through Mkdir for it *)
+
+(* ================================================================ I. Stat / Remove / Rename delegate *)
+Theorem stat_delegates s p :
+  fs_stat s p = match lfetch (s_tree s) (skey p) with
+                | None => RErr eNotExist
+                | Some NDir => RInfo (info_of (path_base p) true 0)
+                | Some (NFile i) => RInfo (info_of (path_base p) false (zlen (obj_content (s_objs s) i)))
+                end.
+Proof. unfold fs_stat, srv_stat. destruct (lfetch (s_tree s) (skey p)) as [[|i]|]; reflexivity. Qed.
+
+Theorem remove_delegates s p s' r : fs_remove s p = (s', r) ->
+  s_objs s' = s_objs s /\
+  match r with
+  | ROk => (forall q, q <> skey p -> lfetch (s_tree s') q = lfetch (s_tree s) q) /\
+           (skey p <> [] -> lfetch (s_tree s') (skey p) = None) /\
+           (exists n, lfetch (s_tree s) (skey p) = Some n)
+  | _ => s' = s
+  end.
+Proof.
+  intros H. split; [pose proof (fs_remove_objs s p) as Ho; now rewrite H in Ho|].
+  unfold fs_remove in H. destruct (lfetch (s_tree s) (skey p)) as [[|i]|] eqn:El.
+  - unfold srv_rmdir in H. rewrite El in H. destruct (has_child _ _); inversion H; subst; try reflexivity.
+    cbn. split; [intros q Hq; now apply lfetch_kdel|]. split; [|eauto].
+    intros Hne. rewrite lfetch_nonroot by exact Hne. apply kget_kdel_same.
+  - inversion H; subst. cbn. split; [intros q Hq; now apply lfetch_kdel|]. split; [|eauto].
+    intros Hne. rewrite lfetch_nonroot by exact Hne. apply kget_kdel_same.
+  - inversion H; subst. reflexivity.
+Qed.
+
+Theorem rename_delegates s a b s' r : wf (s_tree s) -> fs_rename s a b = (s', r) ->
+  s_objs s' = s_objs s /\
+  match r with
+  | ROk => (exists n, lfetch (s_tree s) (skey a) = Some n) /\ lfetch (s_tree s) (skey b) = None /\
+           forall q, lfetch (s_tree s') q =
+                     match kstrip (skey a) q with
+                     | Some _ => None
+                     | None => lfetch (s_tree s) (rename_src (skey a) (skey b) q)
+                     end
+  | _ => s' = s
+  end.
+Proof.
+  intros Hwf H. split; [pose proof (fs_rename_objs s a b) as Ho; now rewrite H in Ho|].
+  unfold fs_rename in H. destruct (srv_rename s (skey a) (skey b)) as [s1|e] eqn:E; inversion H; subst; [|reflexivity].
+  apply srv_rename_ok in E; [|exact Hwf]. destruct E as [Hpre ->]. cbn.
+  pose proof Hpre as (_ & _ & Hp & Htg & _).
+  split; [exact Hp|]. split; [exact Htg|]. now apply lookup_renamed.
+Qed.
